@@ -5,6 +5,7 @@ C01, stated about the gate kernels and constructors as translated from `/repo/sr
 import Qvnt.Props.C01
 import Qvnt.Lemmas.GenKernels
 import Qvnt.Lemmas.GenCtors
+import Qvnt.Lemmas.GenMatrix
 
 namespace Qvnt
 open Qvnt.Spec
@@ -148,4 +149,23 @@ theorem C01_code_u3 (the phi lam : R) (a : Nat) :
   rw [op_u3_eq]; exact C01_u3 _ _ _ a
 
 end ctors
+end Qvnt
+
+namespace Qvnt
+open Qvnt.Spec Qvnt.Gen2
+
+section matrix
+variable {R : Type} [CommRing R] [Consts R] [Div R] [LE R] [DecidableLE R] [LT R] [DecidableLT R] [HasSqrt R] [RegConsts R]
+
+/-- **the matrix an operator reports for itself is the linear map it performs** (`Applicable::matrix` as translated, rows
+built one basis vector at a time and transposed in place): entry `(i, j)` is amplitude `i` of the image of basis state `j`
+under the operator's action on states, for every queue whose gates stay inside the `size` qubits -/
+theorem C01_code_matrix (o : MultiOp R) (hc : ∀ g ∈ o, g.ctrl < 2 ^ 64) (size : Nat) (hs : size < 64)
+    (hloc : ∀ g ∈ o, ∀ ψ : State R, (∀ i, 2 ^ size ≤ i → ψ i = 0) → ∀ i, 2 ^ size ≤ i → g.apply ψ i = 0)
+    (i j : Nat) (hi : i < 2 ^ size) (hj : j < 2 ^ size) :
+    ((multi_matrix o size).getD i []).getD j 0 = MultiOp.apply o (fun k => if k = j then 1 else 0) i := by
+  rw [multi_matrix_eq o hc size hs, ← C01_matrix_column, ← matrixArr_eq_matrix o size hloc i j hj]
+  simp [List.getD_eq_getElem?_getD, hi, hj]
+
+end matrix
 end Qvnt
